@@ -169,3 +169,26 @@ func (o *Once) Do(f func()) {
 	}()
 	f()
 }
+
+func (m *RWMutex) TryLock() bool {
+	m.reg()
+	t := yield(pendingOp{kind: opAtomic, obj: m})
+	if m.writer || m.readers > 0 {
+		return false
+	}
+	m.writer = true
+	acquire(t, m.vc)
+	acquire(t, m.rvc)
+	return true
+}
+
+func (m *RWMutex) TryRLock() bool {
+	m.reg()
+	t := yield(pendingOp{kind: opAtomic, obj: m})
+	if m.writer {
+		return false
+	}
+	m.readers++
+	acquire(t, m.vc)
+	return true
+}
